@@ -137,6 +137,8 @@ func schemaOps(seed int64, n int, outDir string, streams string, replay string) 
 				groupCorrupt(s, g)
 			case "history":
 				groupHistory(s, g)
+			case "witness":
+				groupRecursionWitness(s, g)
 			}
 		}
 	}
